@@ -253,6 +253,10 @@ func init() {
 		}
 		return nil
 	}
+	verifIntrinsics["verifSameArray"] = func(in *Interp, th *Thread, fn *ssa.Function, args []Value) Value {
+		a, b := args[0].(SliceV), args[1].(SliceV)
+		return in.tb.Bool(a.Arr != nil && a.Arr == b.Arr)
+	}
 	verifIntrinsics["verifYield"] = func(in *Interp, th *Thread, fn *ssa.Function, args []Value) Value {
 		in.visible(th, &parkInfo{desc: "yield", enabled: func() bool { return true }, fire: func() {}})
 		return nil
